@@ -27,7 +27,8 @@ RULE = ('random schemas (1-3 classes, 1-7 attributes of the five core types in l
         'non-zero sequence); creation sequences of 5-40 instances with a random positional prefix, '
         'random keyword subset (random spelling) and the rest omitted, interleaved with peek()/next() '
         'on the generator; in three of ten histories the metamodel\'s id_generator is replaced half-way; half of the associations are defined and formalized only after instances exist, and between creations a class is edited now and then (attribute retyped or renamed in place, added, removed). Non-trivial = the creation mixes at least two of positional / keyword / '
-        'defaulted attributes; distinct by hash of (schema, arguments).')
+        'defaulted attributes; distinct by hash of (schema, arguments).'
+        ' Also: creation through class handles after the metamodel object itself was dropped and collected; user generators that are falsy while fresh.')
 ASSUMPTIONS = ['freshness is required among the identifiers the generator produced or disclosed through peek() (an id the caller invents may collide with a later default)',
                'user generators yield injective non-zero sequences']
 LEVEL_TEXT = ('Random exploration of creation histories over random schemas and three generator kinds; '
